@@ -12,8 +12,8 @@ ENGINE_INVARIANTS = ['Correct', 'ErrCorrect', 'StreamPrefix', 'PullBound', 'Prot
 ENGINE_PROPERTIES = ['Prompt', 'SourcesUnchanged', 'OutGrows']
 
 
-def engine_cfg(path, queries, recsA, recsB='R_none', maxA=2, maxB=0, hdrmodes=(False,), breakpoints=(0,), emit=True, mut='', invariants=None, properties=None):
-    lines = ['INIT Init', 'NEXT Next', 'CONSTANTS',
+def engine_cfg(path, queries, recsA, recsB='R_none', maxA=2, maxB=0, hdrmodes=(False,), breakpoints=(0,), emit=True, mut='', invariants=None, properties=None, cyclic=False, spec=None, constraints=()):
+    lines = (['SPECIFICATION ' + spec] if spec else ['INIT Init', 'NEXT Next']) + ['CONSTANTS', '  Cyclic = %s' % ('TRUE' if cyclic else 'FALSE'),
              '  Queries <- %s' % queries, '  RecsA <- %s' % recsA, '  RecsB <- %s' % recsB,
              '  MaxA = %d' % maxA, '  MaxB = %d' % maxB,
              '  HdrModes = {%s}' % ', '.join('TRUE' if h else 'FALSE' for h in hdrmodes),
@@ -23,6 +23,8 @@ def engine_cfg(path, queries, recsA, recsB='R_none', maxA=2, maxB=0, hdrmodes=(F
         lines.append('INVARIANT ' + inv)
     for pr in (properties if properties is not None else ENGINE_PROPERTIES):
         lines.append('PROPERTY ' + pr)
+    for c in constraints:
+        lines.append('CONSTRAINT ' + c)
     lines.append('CHECK_DEADLOCK FALSE')
     with open(path, 'w') as f:
         f.write('\n'.join(lines) + '\n')
@@ -60,6 +62,13 @@ def _replay_chunk(args):
                 sigs = [dict(s, what='spelling-dependent: ' + s['what'], plain_query=ptext) for s in sigs]
             else:
                 sigs = [dict(s, plain_query=ptext) for s in psigs]
+        if opts.get('endless') and case['expect']['streaming'] and not case['expect']['err'] and case['A'] and case['expect']['pulllimit'] <= len(case['A']):
+            # C02: the same bounded streaming query over an iterator that never ends (A repeated for ever) must stop by itself, with the same rows
+            eobs = engine.run_case_py(mods, case, qtext, endless_cap=4 * (len(case['A']) + 2))
+            if eobs['gave_up'] or eobs['err']:
+                sigs.append({'impl': 'py', 'what': 'does not terminate on unbounded input', 'pulled': eobs['pulled'], 'query': qtext})
+            elif not engine.rows_match(eobs['rows'], case['expect']['out']) or eobs['pulled'] > case['expect']['pulllimit']:
+                sigs.append({'impl': 'py', 'what': 'unbounded input: result or pulls differ', 'got': eobs['rows'], 'want': case['expect']['out'], 'pulled': eobs['pulled'], 'pulllimit': case['expect']['pulllimit'], 'query': qtext})
         if opts.get('warnings'):
             # field-count warnings: the input table's first (if any), then the join table's (both labelled "input" by TableIterator: I3)
             want = [list(w) for w in (case['expect']['raggedA'], case['expect']['raggedB']) if w]
